@@ -11,7 +11,7 @@ use crate::oracles::text_index as ti;
 use crate::oracles::text_index::Pi;
 use bio::alphabets::Alphabet;
 use bio::data_structures::bwt::{Less, Occ, BWT};
-use bio::data_structures::fmindex::{BackwardSearchResult, FMIndex, FMIndexable, Interval};
+use bio::data_structures::fmindex::{BackwardSearchResult, FMDIndex, FMIndex, FMIndexable, Interval};
 use bio::data_structures::suffix_array::{SampledSuffixArray, SuffixArray};
 use serde_json::{json, Value};
 use std::sync::Arc;
@@ -383,6 +383,180 @@ fn pipeline_unit(tier: Tier, ctx: &mut Ctx) {
     }
 }
 
+// ---------------------------------------------------------------- FMIndexable through FMDIndex
+//
+// `FMDIndex` implements `FMIndexable` by delegation, so `backward_search` is available on it as
+// well.  The texts here have the shape an FMD index is documented for (every sequence followed by
+// its reverse complement, DNA alphabet); everything else is as in the sweep: oracle suffix array
+// (both sentinel orders), BWT and less by definition, the subject's Occ.
+
+fn dna_comp(c: u8) -> u8 {
+    match c {
+        b'A' => b'T',
+        b'T' => b'A',
+        b'C' => b'G',
+        b'G' => b'C',
+        x => x,
+    }
+}
+
+fn fmd_text(seqs: &[Vec<u8>]) -> Vec<u8> {
+    let mut t = vec![];
+    for s in seqs {
+        t.extend_from_slice(s);
+        t.push(b'$');
+        t.extend(s.iter().rev().map(|&c| dna_comp(c)));
+        t.push(b'$');
+    }
+    t
+}
+
+struct FmdBase {
+    text: Vec<u8>,
+    sa: Vec<usize>,
+    bwt: BWT,
+    less: Less,
+    alphabet: Alphabet,
+}
+
+fn fmd_base(seqs: &[Vec<u8>], pi: Pi) -> FmdBase {
+    let text = fmd_text(seqs);
+    let sa = ti::naive_sa(&text, pi);
+    let bwt: BWT = ti::bwt_def(&text, &sa);
+    let alphabet = Alphabet::new(b"$ACGT");
+    let less: Less = ti::less_table(&text, alphabet.max_symbol().unwrap());
+    FmdBase { text, sa, bwt, less, alphabet }
+}
+
+type FmRef<'a> = FMIndex<&'a BWT, &'a Less, &'a Occ>;
+type FmdRef<'a> = FMDIndex<&'a BWT, &'a Less, &'a Occ>;
+
+fn check_search_fmd(base: &FmdBase, fm: &FmRef, fmd: &FmdRef, p: &[u8], cc: &mut CaseCtx) {
+    let text = &base.text[..];
+    let (l, want_occ) = ti::longest_occurring_suffix_with_positions(text, p);
+    cc.set_nontrivial((l > 0 && l < p.len()) || want_occ.len() >= 2);
+    let want_kind = if l == p.len() {
+        "Complete"
+    } else if l == 0 {
+        "Absent"
+    } else {
+        "Partial"
+    };
+    let plain = guard(|| fm.backward_search(p.iter()));
+    let res = match guard(|| fmd.backward_search(p.iter())) {
+        Err(msg) => {
+            cc.outcome(&"panic");
+            cc.violation("C05/fmd-backward_search/panic", format!("text {:?} pattern {:?}: {}", show(text), show(p), msg));
+            return;
+        }
+        Ok(r) => r,
+    };
+    cc.outcome(&res);
+    if plain.as_ref().ok() != Some(&res) {
+        cc.violation(
+            "C05/fmd-backward_search/differs-from-fmindex",
+            format!("text {:?} pattern {:?}: FMIndex answers {:?}, FMDIndex over the same components {:?}", show(text), show(p), plain, res),
+        );
+    }
+    let (iv, got_len): (Option<Interval>, usize) = match res {
+        BackwardSearchResult::Complete(iv) => (Some(iv), p.len()),
+        BackwardSearchResult::Partial(iv, ll) => (Some(iv), ll),
+        BackwardSearchResult::Absent => (None, 0),
+    };
+    if kind_of(&res) != want_kind {
+        cc.violation(
+            "C05/fmd-backward_search/kind-differs",
+            format!("text {:?} pattern {:?}: got {:?}; longest occurring suffix has length {} so expected {}", show(text), show(p), res, l, want_kind),
+        );
+        return;
+    }
+    if got_len != l {
+        cc.violation(
+            "C05/fmd-backward_search/partial-length-differs",
+            format!("text {:?} pattern {:?}: got {:?}, longest occurring suffix has length {}", show(text), show(p), res, l),
+        );
+        return;
+    }
+    if let Some(iv) = iv {
+        match guard(|| {
+            let mut v = iv.occ(&base.sa);
+            v.sort();
+            v
+        }) {
+            Err(msg) => cc.violation("C05/fmd-backward_search/interval-occ-panic", format!("text {:?} pattern {:?} result {:?}: {}", show(text), show(p), res, msg)),
+            Ok(v) => {
+                if v != want_occ {
+                    cc.violation(
+                        "C05/fmd-backward_search/occurrences-differ",
+                        format!("text {:?} pattern {:?}: {:?} maps to {:?}; suffix {:?} occurs at {:?}", show(text), show(p), res, v, show(&p[p.len() - l..]), want_occ),
+                    );
+                }
+            }
+        }
+    }
+}
+
+fn fmd_desc(seqs: &[Vec<u8>], pi: Pi, k: u32, p: &[u8]) -> Value {
+    json!({"kind": "search-fmd", "seqs": seqs.iter().map(|s| show(s)).collect::<Vec<_>>(), "pi": pi.name(), "k": k, "pattern": show(p)})
+}
+
+/// all patterns for one (sequence set, pi, k)
+fn fmd_cases(ctx: &mut Ctx, seqs: &[Vec<u8>], base: &FmdBase, pi: Pi, k: u32, patterns: &[Vec<u8>]) {
+    if ctx.res.capped {
+        return;
+    }
+    let built = guard(|| Occ::new(&base.bwt, k, &base.alphabet));
+    let occ = match built {
+        Ok(o) => o,
+        Err(msg) => {
+            ctx.case(
+                || json!({"kind": "build-fmd", "seqs": seqs.iter().map(|s| show(s)).collect::<Vec<_>>(), "pi": pi.name(), "k": k}),
+                |cc| cc.violation("C05/index-construction/panic", msg.clone()),
+            );
+            return;
+        }
+    };
+    let fm: FmRef = FMIndex::new(&base.bwt, &base.less, &occ);
+    let fmd: FmdRef = match guard(|| FMDIndex::from(FMIndex::new(&base.bwt, &base.less, &occ))) {
+        Ok(f) => f,
+        Err(msg) => {
+            ctx.case(
+                || json!({"kind": "build-fmd", "seqs": seqs.iter().map(|s| show(s)).collect::<Vec<_>>(), "pi": pi.name(), "k": k}),
+                |cc| cc.violation("C05/fmd-backward_search/construction-panic", format!("FMDIndex::from on a DNA text: {}", msg)),
+            );
+            return;
+        }
+    };
+    for p in patterns {
+        ctx.case(|| fmd_desc(seqs, pi, k, p), |cc| check_search_fmd(base, &fm, &fmd, p, cc));
+    }
+}
+
+fn fmd_sets(tier: Tier) -> Vec<Vec<Vec<u8>>> {
+    let mut sets: Vec<Vec<Vec<u8>>> = crate::gen::strings(b"AC", 1, tier.pick(5, 7)).into_iter().map(|s| vec![s]).collect();
+    let short = crate::gen::strings(b"ACG", 1, 2);
+    for a in &short {
+        for b in &short {
+            sets.push(vec![a.clone(), b.clone()]);
+        }
+    }
+    sets
+}
+
+fn fmd_unit(tier: Tier, ctx: &mut Ctx) {
+    let pats = crate::gen::strings(b"ACGT", 1, tier.pick(3, 4));
+    for seqs in fmd_sets(tier) {
+        let desc = fmd_base(&seqs, Pi::Desc);
+        let asc = fmd_base(&seqs, Pi::Asc);
+        for k in occ_rates(desc.text.len()) {
+            fmd_cases(ctx, &seqs, &desc, Pi::Desc, k, &pats);
+            if k == 2 || k == 5 {
+                fmd_cases(ctx, &seqs, &asc, Pi::Asc, k, &pats);
+            }
+        }
+    }
+}
+
 fn family_patterns(text: &[u8], emb: &[u8; 4], tier: Tier) -> Vec<Vec<u8>> {
     let n = text.len();
     let body = &text[..n - 1];
@@ -459,7 +633,7 @@ impl Prop for C05Prop {
         "exploration"
     }
     fn rule(&self) -> &'static str {
-        "One case = (text, sentinel order pi of the oracle suffix array, Occ rate k, pattern): backward_search through FMIndex with borrowed, owned and Arc components (all three must agree), result kind / partial length against the longest occurring pattern suffix found by naive scanning, and Interval::occ through the full array, through sampled arrays of rates {1,2,3,n} (borrowed components) and rate 2 (Arc components) against the naive occurrence list as sorted lists. Texts: complete sweep of body.$ over {$,a,b} (any number of interior sentinels; ASCII and byte-extreme embedding), k in {1,2,5,n+3}, every pattern over {a,b,c} up to the bound (c never occurs; patterns longer than the text included); repetitive families with short patterns plus factors, one-flip factors, never-occurring last symbol and an over-long pattern, k around 64 and n. Non-trivial: the expected answer is Partial, or the matched suffix occurs at least twice."
+        "One case = (text, sentinel order pi of the oracle suffix array, Occ rate k, pattern): backward_search through FMIndex with borrowed, owned and Arc components (all three must agree), result kind / partial length against the longest occurring pattern suffix found by naive scanning, and Interval::occ through the full array, through sampled arrays of rates {1,2,3,n} (borrowed components) and rate 2 (Arc components) against the naive occurrence list as sorted lists. Texts: complete sweep of body.$ over {$,a,b} (any number of interior sentinels; ASCII and byte-extreme embedding), k in {1,2,5,n+3}, every pattern over {a,b,c} up to the bound (c never occurs; patterns longer than the text included); repetitive families with short patterns plus factors, one-flip factors, never-occurring last symbol and an over-long pattern, k around 64 and n. Non-trivial: the expected answer is Partial, or the matched suffix occurs at least twice. Unit fmd-route (kind search-fmd): the same check with the index wrapped into an FMDIndex (FMIndexable implemented by delegation): texts s$revcomp(s)$ for every s over {A,C} up to a length and every ordered pair of sequences over {A,C,G} of length <=2, k in {1,2,5,n+3}, both sentinel orders, every pattern over {A,C,G,T} up to a length; FMDIndex::backward_search must equal FMIndex::backward_search on the same components and the naive answer."
     }
     fn assumptions(&self) -> Vec<&'static str> {
         vec![
@@ -477,6 +651,7 @@ impl Prop for C05Prop {
             "occ_rates": "1,2,5,n+3",
             "sentinel_orders": "desc for every k; asc for k in {2,5} on multi-sentinel texts",
             "sampled_sa_rates": "1,2,3,n (borrowed) and 2 (Arc)",
+            "fmd_route": {"single_sequence {A,C} len": format!("1..={}", tier.pick(5, 7)), "ordered_pairs {A,C,G} len": "1..=2", "patterns {A,C,G,T}": format!("1..={}", tier.pick(3, 4)), "k": "1,2,5,n+3 (desc); 2,5 (asc)"},
             "families": {"texts": ti::family_bodies(tier, b.text3).iter().filter(|x| x.len() <= tier.pick(300, 400)).count(), "max_body_len": tier.pick(300, 400),
                          "k": tier.pick("1,2,5,64,65,n+3", "1,2,5,64,65,n,n+3"),
                          "patterns": "all over {a,b,c} up to 3|4, factors of lengths 5,8,13,16,21,33,64,65,128,n-2,n-1 at start/middle/end with first/middle symbol flipped or last symbol replaced by c, one pattern longer than the text"}
@@ -486,6 +661,7 @@ impl Prop for C05Prop {
         let mut v: Vec<String> = (0..SWEEP_SHARDS).map(|i| format!("sweep-{}", i)).collect();
         v.extend((0..FAMILY_SHARDS).map(|i| format!("families-{}", i)));
         v.push("pipeline".into());
+        v.push("fmd-route".into());
         v
     }
     fn run_unit(&self, tier: Tier, unit: usize, ctx: &mut Ctx) {
@@ -493,8 +669,10 @@ impl Prop for C05Prop {
             sweep_unit(tier, unit, ctx)
         } else if unit < SWEEP_SHARDS + FAMILY_SHARDS {
             family_unit(tier, unit - SWEEP_SHARDS, ctx)
-        } else {
+        } else if unit == SWEEP_SHARDS + FAMILY_SHARDS {
             pipeline_unit(tier, ctx)
+        } else {
+            fmd_unit(tier, ctx)
         }
     }
     fn death_key(&self, _case: &Value, how: &str) -> String {
@@ -506,6 +684,24 @@ impl Prop for C05Prop {
             let k = case["k"].as_u64().unwrap_or(1) as u32;
             let text = pipeline_text(r);
             ctx.case(|| case.clone(), |cc| check_pipeline(&text, k, cc));
+            return;
+        }
+        if case["kind"] == "search-fmd" || case["kind"] == "build-fmd" {
+            let seqs: Vec<Vec<u8>> = case["seqs"]
+                .as_array()
+                .map(|a| a.iter().map(|s| unshow(s.as_str().unwrap_or(""))).collect())
+                .unwrap_or_default();
+            let pi = Pi::parse(case["pi"].as_str().unwrap_or("desc"));
+            let k = case["k"].as_u64().unwrap_or(1) as u32;
+            if seqs.is_empty() || k == 0 || seqs.iter().any(|s| s.is_empty() || s.iter().any(|c| !b"ACGT".contains(c))) {
+                return;
+            }
+            let pats: Vec<Vec<u8>> = if case["kind"] == "build-fmd" { vec![] } else { vec![unshow(case["pattern"].as_str().unwrap_or(""))] };
+            if pats.iter().any(|p| p.is_empty() || p.iter().any(|c| !b"ACGT".contains(c))) {
+                return;
+            }
+            let base = fmd_base(&seqs, pi);
+            fmd_cases(ctx, &seqs, &base, pi, k, &pats);
             return;
         }
         let text = unshow(case["text"].as_str().unwrap_or(""));
